@@ -1,7 +1,7 @@
 import functools
 from typing import Any, Callable, Generator, Iterable, Iterator, MutableMapping, Tuple
 
-from ..datastructures import Headers
+from ..datastructures import Headers, RawCookie
 from ..typing import Environ, StartResponse, WSGIApp
 from .requests import Request
 from .responses import Response, StreamingResponse
@@ -55,6 +55,7 @@ class NextResponse(StreamingResponse):
         """
         status_code = 200
         headers: Headers = Headers()
+        set_cookies: list = []
 
         def start_response(
             status: str, response_headers: Iterable[Tuple[str, str]], exc_info=None
@@ -62,10 +63,17 @@ class NextResponse(StreamingResponse):
             nonlocal status_code
             nonlocal headers
             status_code = int(status.split(" ")[0])
-            headers = Headers(response_headers)
+            response_headers = list(response_headers)
+            # Set-Cookie lines cannot be folded into one comma-separated value
+            set_cookies[:] = [v for k, v in response_headers if k.lower() == "set-cookie"]
+            headers = Headers(
+                (k, v) for k, v in response_headers if k.lower() != "set-cookie"
+            )
 
         body = ensure_next(app(request, start_response))
-        return NextResponse(body, status_code, headers)
+        response = NextResponse(body, status_code, headers)
+        response.cookies.extend(RawCookie(line) for line in set_cookies)
+        return response
 
 
 def middleware(
